@@ -26,14 +26,14 @@ import (
 // request).
 type faultIO struct {
 	logiface.IOPreSign // ipfs-log's Verify needs the codec's PreSign
-	mu      sync.Mutex
-	mode    string // "", "cancel", "read-error", "block-error"
-	k       int
-	seen    int
-	cancel  context.CancelFunc
-	failCid string
-	hit     bool
-	reads   int
+	mu                 sync.Mutex
+	mode               string // "", "cancel", "read-error", "block-error"
+	k                  int
+	seen               int
+	cancel             context.CancelFunc
+	failCid            string
+	hit                bool
+	reads              int
 }
 
 func (f *faultIO) arm(mode string, k int, cancel context.CancelFunc) {
